@@ -101,6 +101,18 @@ def load(pe, req):
     raise ValueError(tr)
 
 
+def placeholder_like(x):
+    """does the structure hold a string that starts like one of the dictionary writer's placeholders?"""
+    import re
+    if isinstance(x, str):
+        return re.match(r"DICTOBS[0-9]+", x) is not None
+    if isinstance(x, dict):
+        return any(placeholder_like(v) for v in x.values())
+    if isinstance(x, (list, tuple)):
+        return any(placeholder_like(v) for v in x)
+    return False
+
+
 def frame_analysable(pe, df):
     """auto_gamma is only asked for when the default analysis exists for every cell (e.g. replicas without a common
     spacing cannot be analysed at all - asking for it then is a caller error)"""
@@ -533,6 +545,9 @@ def do_export(ctx, pe, pd, op, plan, structs, d, clock, faults, files, sql_model
         ctx.sig(comp, disc, "fault", fault["err"])
         return
     if raised is not None:
+        if tr == "dict" and placeholder_like(obj) and "placeholder" in str(raised):
+            ctx.probe("placeholder_like_string_refused")       # documented refusal of strings that look like DICTOBS<n>
+            return
         ctx.violation("c11.no_result", comp, disc, "export raised %s: %s" % (type(raised).__name__, str(raised)[:160]))
         return
     if prev is not None:
